@@ -391,7 +391,8 @@ pub fn run(p: &Params, prefix: &str) -> Report {
     }
     let n = p.budget(60_000, 4_000_000);
     for i in 0..n {
-        scenario(p.shard_seed(i), &mut rep, prefix);
+        let seed = p.shard_seed(i);
+        crate::util::guarded(&mut rep, seed, |rep| scenario(seed, rep, prefix));
     }
     rep
 }
